@@ -80,6 +80,7 @@ func Parse(fontInfo *sfnt.Font, input string) (lookups gtab.LookupList, err erro
 type parser struct {
 	tokens  <-chan item
 	backlog []item
+	line    int // line of the last item received from the lexer
 
 	fontInfo *sfnt.Font
 	cmap     cmap.Subtable
@@ -1343,7 +1344,14 @@ func (p *parser) readItem() item {
 		p.backlog = p.backlog[:n]
 		return item
 	}
-	return <-p.tokens
+	next, ok := <-p.tokens
+	if !ok {
+		// The lexer has finished.  Keep reporting the end of the input,
+		// at the position of the last item.
+		return item{typ: itemEOF, line: p.line}
+	}
+	p.line = next.line
+	return next
 }
 
 func (p *parser) peek() item {
